@@ -230,7 +230,7 @@ func TestVerif_C01_ChannelCache(t *testing.T) {
 	}
 	offsets := []uint64{0, 1 << 20, (1 << 33) + 5, (1 << 62) + 12345}
 	probeMod := vEnvInt("VERIF_C01_PROBE_MOD", 1) // probe the states whose key hash is 0 modulo this
-	probeLims := []int{0, 1, 2, 3}
+	probeLims := []int{0, 1, 2}
 	probed := map[string]bool{}
 
 	for bi, b := range behs {
@@ -238,10 +238,26 @@ func TestVerif_C01_ChannelCache(t *testing.T) {
 			off: offsets[rnd.Intn(len(offsets))], rmKind: rnd.Intn(3)}
 		e.bucket = &vC01Bucket{truth: map[string]*LogEntry{}, atQuery: make(chan vObj), doQuery: make(chan struct{}), queried: make(chan LogEntries), release: make(chan struct{})}
 		e.newCache(e.off + 1)
-		tw.Emit(vObj{"a": "Reset", "beh": bi, "mx": b.Mx, "mn": b.Mn})
+		// shared prefix with the previous behaviour (the python driver sorts them): re-executed silently, logged once
+		prefix := 0
+		if bi > 0 && behs[bi-1].Mx == b.Mx && behs[bi-1].Mn == b.Mn {
+			pv := behs[bi-1].Steps
+			for prefix < len(pv) && prefix < len(b.Steps) && pv[prefix] == b.Steps[prefix] && !strings.HasPrefix(b.Steps[prefix].A, "ReadBegin") {
+				prefix++
+			}
+		}
+		silent := prefix > 0
+		emit := func(o vObj) {
+			if !silent {
+				tw.Emit(o)
+			}
+		}
+		if !silent {
+			tw.Emit(vObj{"a": "Reset", "beh": bi, "mx": b.Mx, "mn": b.Mn})
+		}
 
 		probe := func() {
-			if e.splitOn {
+			if e.splitOn || silent {
 				return
 			}
 			key := e.stateKey()
@@ -265,7 +281,10 @@ func TestVerif_C01_ChannelCache(t *testing.T) {
 						cp := e.clone()
 						rows := e.read(cp, s, lim, ao)
 						logs, vf, docs := e.state(cp)
-						r := vObj{"s": s, "lim": lim, "ao": ao, "rows": e.rows(rows), "logs": logs, "vf": vf, "docs": docs, "same": fmt.Sprint(logs, vf, docs) == cur}
+						r := vObj{"s": s, "lim": lim, "ao": ao, "rows": e.rows(rows), "same": true}
+						if fmt.Sprint(logs, vf, docs) != cur {
+							r["same"], r["logs"], r["vf"], r["docs"] = false, logs, vf, docs
+						}
 						results = append(results, r)
 					}
 				}
@@ -274,6 +293,10 @@ func TestVerif_C01_ChannelCache(t *testing.T) {
 		}
 
 		for si, st := range b.Steps {
+			if silent && si == prefix {
+				silent = false
+				tw.Emit(vObj{"a": "Back", "n": prefix, "beh": bi})
+			}
 			switch st.A {
 			case "Add":
 				entry, isRemoval := e.write(st)
@@ -281,11 +304,11 @@ func TestVerif_C01_ChannelCache(t *testing.T) {
 				if st.Seq > e.hcs {
 					e.hcs = st.Seq
 				}
-				tw.Emit(e.post(vObj{"a": "Add", "seq": st.Seq, "doc": st.Doc, "rm": st.Rm}))
+				emit(e.post(vObj{"a": "Add", "seq": st.Seq, "doc": st.Doc, "rm": st.Rm}))
 			case "WriteLater":
 				entry, isRemoval := e.write(st)
 				e.pend[st.Seq], e.pendRm[st.Seq] = entry, isRemoval
-				tw.Emit(e.post(vObj{"a": "WriteLater", "seq": st.Seq, "doc": st.Doc, "rm": st.Rm}))
+				emit(e.post(vObj{"a": "WriteLater", "seq": st.Seq, "doc": st.Doc, "rm": st.Rm}))
 			case "Deliver":
 				entry, ok := e.pend[st.Seq]
 				if !ok {
@@ -297,13 +320,13 @@ func TestVerif_C01_ChannelCache(t *testing.T) {
 				if st.Seq > e.hcs {
 					e.hcs = st.Seq
 				}
-				tw.Emit(e.post(vObj{"a": "Deliver", "seq": st.Seq, "doc": st.Doc, "rm": st.Rm}))
+				emit(e.post(vObj{"a": "Deliver", "seq": st.Seq, "doc": st.Doc, "rm": st.Rm}))
 			case "Gap":
 				if e.next > e.hcs {
 					e.hcs = e.next
 				}
 				e.next++
-				tw.Emit(e.post(vObj{"a": "Gap"}))
+				emit(e.post(vObj{"a": "Gap"}))
 			case "PruneAge":
 				// forge: exactly the k oldest entries are older than ChannelCacheAge
 				old := time.Now().Add(-2 * time.Hour)
@@ -317,19 +340,19 @@ func TestVerif_C01_ChannelCache(t *testing.T) {
 				}
 				e.cache.lock.Unlock()
 				e.cache.pruneCacheAge(ctx)
-				tw.Emit(e.post(vObj{"a": "PruneAge", "k": st.K}))
+				emit(e.post(vObj{"a": "PruneAge", "k": st.K}))
 			case "Purge":
 				e.bucket.mu.Lock()
 				delete(e.bucket.truth, st.Doc)
 				e.bucket.mu.Unlock()
 				e.cache.Remove(ctx, base.DefaultCollectionID, []string{st.Doc}, time.Now().Add(time.Hour))
-				tw.Emit(e.post(vObj{"a": "Purge", "doc": st.Doc}))
+				emit(e.post(vObj{"a": "Purge", "doc": st.Doc}))
 			case "Recreate":
 				e.newCache(e.off + uint64(e.hcs) + 1)
-				tw.Emit(e.post(vObj{"a": "Recreate"}))
+				emit(e.post(vObj{"a": "Recreate"}))
 			case "Read":
 				rows := e.read(e.cache, st.S, st.Lim, st.Ao)
-				tw.Emit(e.post(vObj{"a": "Read", "s": st.S, "lim": st.Lim, "ao": st.Ao, "rows": e.rows(rows)}))
+				emit(e.post(vObj{"a": "Read", "s": st.S, "lim": st.Lim, "ao": st.Ao, "rows": e.rows(rows)}))
 			case "ReadBegin":
 				e.bucket.gate = true
 				e.splitDone = make(chan []*LogEntry, 1)
@@ -339,11 +362,11 @@ func TestVerif_C01_ChannelCache(t *testing.T) {
 				select {
 				case args := <-e.bucket.atQuery:
 					e.splitOn, e.splitStage, e.splitArgs = true, "query", args
-					tw.Emit(e.post(vObj{"a": "ReadBegin", "s": st.S, "lim": st.Lim, "ao": st.Ao}))
+					emit(e.post(vObj{"a": "ReadBegin", "s": st.S, "lim": st.Lim, "ao": st.Ao}))
 				case rows := <-e.splitDone:
 					// the real cache answered without a query where the model expected one: record what happened
 					e.bucket.gate = false
-					tw.Emit(e.post(vObj{"a": "Read", "s": st.S, "lim": st.Lim, "ao": st.Ao, "rows": e.rows(rows)}))
+					emit(e.post(vObj{"a": "Read", "s": st.S, "lim": st.Lim, "ao": st.Ao, "rows": e.rows(rows)}))
 				}
 			case "ReadQuery":
 				if !e.splitOn {
@@ -353,7 +376,7 @@ func TestVerif_C01_ChannelCache(t *testing.T) {
 				q := <-e.bucket.queried
 				e.splitStage = "prepend"
 				a := e.splitArgs
-				tw.Emit(e.post(vObj{"a": "ReadQuery", "q": e.rows(q), "lo": int(a["lo"].(uint64) - e.off), "hi": int(a["hi"].(uint64) - e.off),
+				emit(e.post(vObj{"a": "ReadQuery", "q": e.rows(q), "lo": int(a["lo"].(uint64) - e.off), "hi": int(a["hi"].(uint64) - e.off),
 					"qlim": a["qlim"], "qao": a["qao"]}))
 			case "ReadEnd":
 				if !e.splitOn {
@@ -363,11 +386,14 @@ func TestVerif_C01_ChannelCache(t *testing.T) {
 				rows := <-e.splitDone
 				e.splitOn = false
 				e.bucket.gate = false
-				tw.Emit(e.post(vObj{"a": "ReadEnd", "rows": e.rows(rows)}))
+				emit(e.post(vObj{"a": "ReadEnd", "rows": e.rows(rows)}))
 			default:
 				t.Fatalf("VERIF-FATAL unknown action %q", st.A)
 			}
 			probe()
+		}
+		if silent {
+			tw.Emit(vObj{"a": "Back", "n": prefix, "beh": bi})
 		}
 		// a behaviour that ends inside a split read: let the goroutine finish (not logged)
 		if e.splitOn {
